@@ -148,11 +148,9 @@ Definition out_events (buf : bytes) : list event :=
   let '(ms, rest) := frames buf in
   (map EOut ms ++ match rest with [] => [] | _ => [EOutRaw rest] end)%list.
 
-(* Session::send_process.  orig = true: the code before the repairs d862447 (F21: the persister
-   received ptr, which points into the cleared batch buffer for the flushing message of a non-empty
-   buffer) and f813a59 (F20: the control record was always next_send + 1, whether or not the number
-   was then consumed); kept only for the ..._orig_refuted witnesses.  orig = false: the code as it is. *)
-Definition send_process_gen (orig : bool) (now : Z) (s : sess) (m : msg) : bool * sess * list event :=
+(* Session::send_process, the code as it is (after the repairs d862447: the persister receives optr, the
+   message's own bytes, and 8a992cc: the control record is the number that will be used next). *)
+Definition send_process (now : Z) (s : sess) (m : msg) : bool * sess * list event :=
   let asa := pr_asa (s_par s) in
   let is_dup0 := has_field T_PossDupFlag (m_hdr m) in
   let m1 := if has_field T_SenderCompID (m_hdr m) then m else add_hdr' sc T_SenderCompID (s_snd s) m in
@@ -182,7 +180,7 @@ Definition send_process_gen (orig : bool) (now : Z) (s : sess) (m : msg) : bool 
            buffer keeps what was appended *)
         (false, (if appended then w_batch tosend s else s), [], [])
       else
-        (true, w_batch [] (w_last_sent now s), out_events tosend, (if appended && orig then [] else enc))
+        (true, w_batch [] (w_last_sent now s), out_events tosend, enc)
     else
       (true, w_batch (s_batch s ++ enc)%list s, [], enc) in
   let '(ok, s1, evs, ptr) := step in
@@ -193,14 +191,61 @@ Definition send_process_gen (orig : bool) (now : Z) (s : sess) (m : msg) : bool 
     let per1 :=
       if p_attached (s_per s1) then
         let p0 := if is_admin sc (m_type m) then s_per s1 else p_put (s_per s1) (s_next_send s1) ptr in
-        p_put_ctrl p0 (if increment || orig then s_next_send s1 + 1 else s_next_send s1) (s_next_recv s1)
+        p_put_ctrl p0 (if increment then s_next_send s1 + 1 else s_next_send s1) (s_next_recv s1)
       else s_per s1 in
     let s2 := w_per per1 s1 in
     let s3 := if increment then w_next_send (s_next_send s2 + 1) s2 else s2 in
     (true, s3, evs).
 
-Definition send_process : Z -> sess -> msg -> bool * sess * list event := send_process_gen false.
-Definition send_process_orig : Z -> sess -> msg -> bool * sess * list event := send_process_gen true.
+(* Session::send_process as it was BEFORE those repairs (F21: `ptr`, which points into the cleared batch
+   buffer for the flushing message of a non-empty buffer, went to the persister; F20: the control record
+   was always next_send + 1); kept only for the ..._orig_refuted witnesses. *)
+Definition send_process_orig (now : Z) (s : sess) (m : msg) : bool * sess * list event :=
+  let asa := pr_asa (s_par s) in
+  let is_dup0 := has_field T_PossDupFlag (m_hdr m) in
+  let m1 := if has_field T_SenderCompID (m_hdr m) then m else add_hdr' sc T_SenderCompID (s_snd s) m in
+  let m2 := if has_field T_TargetCompID (m_hdr m1) then m1 else add_hdr' sc T_TargetCompID (s_tgt s) m1 in
+  let seqv := dec (if m_custom m =? 0 then s_next_send s else m_custom m) in
+  let '(m3, is_dup) :=
+    if has_field T_MsgSeqNum (m_hdr m2) then
+      let '(m3a, dup) :=
+        if is_dup0 then ((if asa then del_hdr T_PossDupFlag m2 else m2), true)
+        else if asa then (m2, false) else (add_hdr' sc T_PossDupFlag s_Y m2, true) in
+      let sendtime := match get_field T_SendingTime (m_hdr m3a) with Some v => v | None => fmt_time now end in
+      let m3b := add_hdr' sc T_OrigSendingTime sendtime m3a in
+      ((if asa then add_hdr' sc T_MsgSeqNum seqv m3b else m3b), dup)
+    else (add_hdr' sc T_MsgSeqNum seqv m2, is_dup0) in
+  let m4 := add_hdr' sc T_SendingTime (fmt_time now) m3 in
+  let enc := encode sc m4 in
+  (* batching and the socket; ptr = what is handed to the persister afterwards *)
+  let step :=
+    if m_eob m then
+      let '(tosend, appended) :=
+        match s_batch s with
+        | [] => (enc, false)
+        | _ => ((s_batch s ++ enc)%list, true)
+        end in
+      if s_closed s then
+        (* Connection::send throws (Poco::IOException), caught below: return false; the batch
+           buffer keeps what was appended *)
+        (false, (if appended then w_batch tosend s else s), [], [])
+      else
+        (true, w_batch [] (w_last_sent now s), out_events tosend, (if appended then [] else enc))
+    else
+      (true, w_batch (s_batch s ++ enc)%list s, [], enc) in
+  let '(ok, s1, evs, ptr) := step in
+  if negb ok then (false, s1, evs)
+  else if is_dup then (true, s1, evs)
+  else
+    let increment := (m_custom m =? 0) && negb (m_noinc m) && negb (beq (m_type m) mt_sequence_reset) in
+    let per1 :=
+      if p_attached (s_per s1) then
+        let p0 := if is_admin sc (m_type m) then s_per s1 else p_put (s_per s1) (s_next_send s1) ptr in
+        p_put_ctrl p0 (s_next_send s1 + 1) (s_next_recv s1)
+      else s_per s1 in
+    let s2 := w_per per1 s1 in
+    let s3 := if increment then w_next_send (s_next_send s2 + 1) s2 else s2 in
+    (true, s3, evs).
 
 (* Session::send(Message*, destroy, custom_seqnum, no_increment) -> Connection::write -> FIXWriter::write *)
 Definition send (now : Z) (s : sess) (m : msg) (custom : N) (noinc : bool) : bool * sess * list event :=
